@@ -427,7 +427,7 @@ func tailFile(path string, n int) string {
 	}
 	// keep the head of a panic message: find "panic:" / "fatal error:" / "WATCHDOG"
 	s := string(b)
-	for _, mark := range []string{"panic:", "fatal error:", "WATCHDOG", "WARNING: DATA RACE"} {
+	for _, mark := range []string{"panic:", "fatal error:", "WATCHDOG-DEADLOCK", "WATCHDOG", "WARNING: DATA RACE"} {
 		if i := strings.Index(s, mark); i >= 0 {
 			s = s[i:]
 			break
@@ -444,6 +444,17 @@ func tailFile(path string, n int) string {
 func attribute(bin, prop, tier string, seed int64, gd, runDir, tag string, attempt int, entries []SlotEntry, rc int, tail string) (*Violation, int64) {
 	if len(entries) == 0 {
 		return nil, -1
+	}
+	if i := strings.Index(tail, "WATCHDOG-DEADLOCK:"); i >= 0 {
+		// all go.sh goroutines blocked in two dumps: a dead-lock is a hang whatever its probability
+		en := entries[0]
+		msg := firstLine(tail[i:])
+		key := "deadlock:" + string(en.Raw)
+		if len(key) > 400 {
+			key = key[:400]
+		}
+		return &Violation{Property: prop, Key: key, Class: "deadlock", Case: en.Raw,
+			Expected: "the call returns", Observed: msg, Detail: tail, GoDebug: gd, Tier: tier, Seed: seed}, en.Idx
 	}
 	if strings.Contains(tail, "WARNING: DATA RACE") {
 		// a race report is evidence on its own (it need not reproduce in a solo run);
